@@ -9,3 +9,12 @@
                                   the id a DELETE of the remote revision would produce.
    Every theorem is proved for BOTH values (the proofs never compute with the constant). *)
 Definition null_merge_is_delete : bool := true.
+
+(* known_tombstone_cancelled = true   the code since /repo commit 6e0c2ba: PutExistingCurrentVersion answers "already
+                                      present" for an incoming tombstone whose current version the stored TOMBSTONE's
+                                      vector already knows (the allowConflictingTombstone branch used to skip that test)
+                             = false  the code before it: such a tombstone is written again with the INCOMING current
+                                      version (fixed finding vv:redelivered-tombstone-rewritten;
+                                      C06_Refuted.C06_raw_tombstone_redelivery_refuted).
+   Only RAW delivery (VVG.gput) can tell the two apart: through the negotiation the offer is answered "known". *)
+Definition known_tombstone_cancelled : bool := true.
